@@ -114,8 +114,17 @@ class Gen:
         for i in range(n):
             if i and self.r.random() < 0.3:
                 out.append("")  # single blank line
-            if self.r.random() < 0.2:
+            x = self.r.random()
+            if x < 0.2:
                 out.append(sp(ind) + self.r.choice(["# build-system", "# Many tests require internet access.", "#no-space", "# é"]))
+            elif x < 0.3:
+                # a section comment, a blank line, then the comment documenting the binding
+                out.append(sp(ind) + "# section")
+                out.append("")
+                out.append(sp(ind) + "# documents the next binding")
+            elif x < 0.35:
+                out.append(sp(ind) + "# first")
+                out.append(sp(ind) + "# second")
             b = self.binding(ind, depth)
             if self.r.random() < 0.12 and "\n" not in b:
                 b += " # eol"
@@ -138,7 +147,8 @@ class Gen:
         elif shape == "ident_lambda":
             text = "self: super: " + body_set
         elif shape == "let_set":
-            text = "let\n" + self.bindings(2, 1, r.randint(1, 3)) + "\nin\n" + body_set
+            pre_body = r.choice(["", "", "# about the result\n", "# section\n\n# about the result\n"])
+            text = "let\n" + self.bindings(2, 1, r.randint(1, 3)) + "\nin\n" + pre_body + body_set
         elif shape == "lambda_let_call":
             text = "{ lib, stdenv }:\nlet\n" + self.bindings(2, 1, r.randint(1, 2)) + "\nin\nstdenv.mkDerivation " + body_set
         elif shape == "with_set":
